@@ -26,6 +26,17 @@ def num_agg_ref(kind, vals):
     """eval_number aggregates: the result has the numeric (double) value of the aggregate of the arguments' double values.
     Cheap structural candidates come first (the result is one of the arguments, selected by comparisons of double values in
     either direction), the numeric statement last."""
+    if kind in ('Min', 'Max') and all(v[0] == 'adt' and v[2] == 'Integer' for v in vals):
+        # all arguments are Integers: the true extremum is the exact integer one (no detour through doubles), always Ok
+        def exact(x):
+            if x[0] != 'adt': return False
+            if x[2] != 'Integer': return False
+            best = vals[0][3][0]
+            for a in vals[1:]:
+                ai = a[3][0]
+                best = z3.If((ai < best) if kind == 'Min' else (ai > best), ai, best)      # z3 `<` on bit-vectors is signed
+            return sem.same_int(x[3][0], best)
+        return [(True, sem.OKP(exact, 'exact integer ' + kind))]
     fs = [sem.num_to_f64(v) for v in vals]
     cs = sem.f64_aggregate_ref(kind, fs)
     out = []
@@ -44,6 +55,8 @@ def num_agg_ref(kind, vals):
                             fa_, fb_ = sem.num_to_f64(acc), sem.num_to_f64(a)
                             if kind == 'Min': keep = z3.fpLT(fa_, fb_) if less_first else z3.Not(z3.fpLT(fb_, fa_))
                             else: keep = z3.fpGT(fa_, fb_) if less_first else z3.Not(z3.fpGT(fb_, fa_))
+                            if acc[0] == 'adt' and a[0] == 'adt' and acc[2] == 'Integer' and a[2] == 'Integer':      # two Integers compare exactly
+                                keep = (acc[3][0] < a[3][0]) if kind == 'Min' else (acc[3][0] > a[3][0])
                             nxt.append((b_and(c, keep), acc)); other.append(b_and(c, z3.Not(keep)))
                         nxt.append((b_or(*other), a)); accs = nxt
                     cands.append(b_or(*[b_and(c, same_number(x, acc)) for c, acc in accs]))
